@@ -184,10 +184,21 @@ def c2s(ctx, ntexts, nmut):
         t = splice(rng, corp)
         if not c03.lone_backslash(t):
             muts.append(t)
+    # texts whose long value / long note data has a character that must be written escaped on or next to a
+    # buffer-sized offset (0.5 ... 64 KiB) of the text or of the value itself
+    bnd = []
+    brng = random.Random(ctx.seed * 29 + 4)
+    for fmt in ("sm", "ssc"):
+        for sf, info in cc.boundary_objects(fmt, brng, range(-2, 2) if ctx.quick else range(-8, 9)):
+            if info.get("value_offset") and (not ctx.quick or info["boundary"] in (4096, 8192, 16384)):
+                try:
+                    bnd.append(str(sf))
+                except Exception:  # noqa
+                    pass
     recs, meta = [], {}
     rid = 0
     rejected = {}
-    for text in texts + corp + muts:
+    for text in texts + corp + muts + bnd:
         for strict in (True, False):
             for entry in ("anon", "sm_ctor", "ssc_ctor"):
                 rec, st = cycle_record(rid, text, strict, entry)
